@@ -113,6 +113,12 @@ theorem C18_unified_fixed (n : Nat) (xs : List IOp) (old new : List Nat)
     applyU 0 0 old (hunksFixed n xs old new) = some new :=
   UnifiedLemmas.unified_fixed n xs old new hv
 
+/-- the repair is conservative: where the index fields were right (218 of the 220 formattable repository inputs)
+the renumbered script is the script, so the printed diff is byte for byte what it was -/
+theorem C18_unified_fix_conservative (n : Nat) (xs : List IOp) (old new : List Nat) (h : InOrder 0 0 xs = true) :
+    hunksFixed n xs old new = hunks n xs old new :=
+  UnifiedLemmas.fixed_eq_pinned n xs old new h
+
 /-- the code as pinned violated the property: on the script `similar` really produces for `tests/inputs/table-6.lua`
 (found by the thorough tier of the `diffuni` correspondence, whose model-side applier rejected it; GNU `patch` calls
 the printed diff malformed) the header is `-1,2` over a body with three old-side lines. Line ids: the inserted line
